@@ -144,7 +144,6 @@ func parseClientHello(buf []byte) (*clientHello, error) {
 	if !s.ReadUint24LengthPrefixed(&ss) {
 		return nil, ErrDecodeError
 	}
-	zeros := s
 	s = ss
 
 	// https://datatracker.ietf.org/doc/html/rfc8446#section-4.1.2
@@ -221,7 +220,9 @@ func parseClientHello(buf []byte) (*clientHello, error) {
 		return nil, err
 	}
 	if hello.echExt != nil && hello.echExt.Type == 1 {
-		for _, p := range zeros {
+		// Section 5.1: what follows the extensions of an
+		// EncodedClientHelloInner is padding and must be zero.
+		for _, p := range s {
 			if p != 0 {
 				return nil, ErrIllegalParameter
 			}
